@@ -208,6 +208,10 @@ def generate(rng, tier):
         # (what user code does); otherwise every call gets fresh copies
         "alias": rng.random() < 0.5,
     }
+    if cfg["alias"] and rng.random() < 0.3:
+        # a caller who builds the argument containers once and rewrites their contents for every call
+        cfg["forms_all"] = {"Q": rng.choice(["list", "nparr", "plain"]), "out": rng.choice(["list", "plain"]),
+                            "shift": rng.choice(["list", "nparr", "plain"])}
     # swarm: which op families are enabled in this run
     enabled = {
         "mdft": rng.random() < 0.8,
@@ -260,6 +264,8 @@ def generate(rng, tier):
         weights += [("clear", 2)]
     if enabled["precision"]:
         weights += [("precision", 2)]
+    if cfg["alias"]:
+        weights += [("edit", 2)]
     if enabled["pollute"]:
         weights += [("pollute", 2)]
     if enabled["poison"]:
@@ -321,6 +327,12 @@ def generate(rng, tier):
             op = {"op": kind, "arr": name, "Q": fq, "wf": rng.random() < 0.4,
                   "efl": rng.uniform(10, 500), "wvl": arrays[name]["wvl"],
                   "dx": arrays[name]["dxp"] if kind == "focus" else arrays[name]["dxf"]}
+        elif kind == "edit":
+            # the user changes one of their own arrays in place (a *= mask, a += ...) between transforms
+            if not arrays:
+                continue
+            op = {"op": "edit", "arr": rng.choice(sorted(arrays)), "how": rng.choice(["scale", "negate", "mask", "add"]),
+                  "seed": rng.getrandbits(32)}
         elif kind == "clear":
             op = {"op": "clear", "which": rng.choice(["mdft", "czt", "both"])}
         elif kind == "precision":
@@ -441,7 +453,10 @@ def execute(plan):
     prec = cfg.get("precision0", 64)
 
     arrays = {k: materialise(s) for k, s in plan["arrays"].items()}
-    user = {"alias": bool(cfg.get("alias")), "live": {}, "wf": {}, "shift": {}}
+    user = {"alias": bool(cfg.get("alias")), "live": {}, "wf": {}, "shift": {}, "args": {}}
+    versions = {}
+    user["versions"] = versions
+    user["forms_all"] = cfg.get("forms_all")
     history = []   # (sig, result, tol, scale, step) of judged calls
     dirty = False  # has any state-changing event happened since start?
     last_key_sig = {"mdft": None, "czt": None}
@@ -453,7 +468,28 @@ def execute(plan):
         ev = {"i": i, "op": kind}
         before = _cache_keys(ft)
         try:
-            if kind == "clear":
+            if kind == "edit":
+                name = op["arr"]
+                a0 = arrays[name]
+                if name not in user["live"]:
+                    user["live"][name] = a0.copy()
+                live = user["live"][name]
+                g = np.random.Generator(np.random.PCG64(op["seed"]))
+                if a0.dtype.kind in "fc":
+                    if op["how"] == "scale":
+                        live *= 0.5
+                    elif op["how"] == "negate":
+                        np.negative(live, out=live)
+                    elif op["how"] == "mask":
+                        live *= (g.random(live.shape) < 0.6)
+                    else:
+                        live += 1.0
+                    arrays[name] = live.copy()          # what the user's array holds from now on
+                    versions[name] = versions.get(name, 0) + 1
+                    bump(faults, "user_edited_input_in_place")
+                    dirty = True
+                ev["out"] = "ok"
+            elif kind == "clear":
                 if op["which"] in ("mdft", "both"):
                     ft.mdft.clear()
                 if op["which"] in ("czt", "both"):
@@ -740,10 +776,32 @@ def _judged(np, ft, pr, op, arrays, prec, step, history, violations, probes, bum
                 if op["shift"] is not None:
                     kw["shift"] = tup(op["shift"])
                 qa, oa = tup(op["Q"]), tup(op["out"])
-                forms = op.get("forms")
+                forms = op.get("forms") or user.get("forms_all")
                 if forms:
                     qa, oa, kw, lenient = _apply_forms(np, forms, qa, oa, kw)
                     bump(probes, "argument_forms")
+                    if alias:
+                        # the user keeps ONE list / array object per argument and rewrites its contents
+                        # before each call (same identity, new values)
+                        held = user["args"]
+                        for nm, val in (("Q", qa), ("out", oa), ("shift", kw.get("shift"))):
+                            if isinstance(val, list):
+                                obj = held.setdefault((nm, "list", len(val)), list(val))
+                                obj[:] = val
+                                val2 = obj
+                            elif isinstance(val, np.ndarray) and val.ndim == 1:
+                                obj = held.setdefault((nm, "arr", val.size), val.copy())
+                                obj[...] = val
+                                val2 = obj
+                            else:
+                                continue
+                            if nm == "Q":
+                                qa = val2
+                            elif nm == "out":
+                                oa = val2
+                            else:
+                                kw["shift"] = val2
+                        bump(probes, "reused_argument_containers")
                 res = fn(a, qa, oa, **kw)
             elif k in ("ffs", "ufs"):
                 sh = tuple(op["shift"])
@@ -847,7 +905,8 @@ def _judged(np, ft, pr, op, arrays, prec, step, history, violations, probes, bum
                            "tol": tol * scale, "relerr": err / scale, "prec": prec,
                            "feat": _features_from(m, n, Q, out, shift, a, np)})
     # signature for the history check: everything the answer may depend on
-    sig = core.digest([k, {kk: vv for kk, vv in op.items() if kk not in ("op", "forms", "view", "shift_arr")}, prec])
+    sig = core.digest([k, {kk: vv for kk, vv in op.items() if kk not in ("op", "forms", "view", "shift_arr")}, prec,
+                       user.get("versions", {}).get(op["arr"], 0)])
     cmp = np.abs(res) if shifted else res
     history.append((sig, cmp, tol, scale, step))
     return r
